@@ -45,6 +45,7 @@ PROPOSED = {
     "K12i": ("shared_reader_keeps_leftover_text", "findings/C12-K12i.txt"),
     "K12j": ("ast_printer_does_not_escape_strings_or_quote_identifiers", "findings/C12-K12j.txt"),
     "K12l": ("reader_recursion_exhausts_native_stack", "findings/C12-K12l.txt"),
+    "K12o": ("ast_printer_drops_rest_argument_marker", "findings/C12-K12o.txt"),
     "K12n": ("string_to_number_accepts_underscore_digit_separators", "findings/C12-K12n.txt"),
     "K12m": ("print_does_not_escape_backslash_in_quoted_symbol", "findings/C12-K12m.txt"),
 }
@@ -373,6 +374,79 @@ def embed_ident(r, ident, other):
     shape = ["(@1)", "(a @1 \"s\")", "'@1", "#(@1 @2)", "(define @1 1)", "(@1 . @2)", "`(,@1)", "(quote @1)", "\"é漢\" @1",
              "λ漢 (@2 @1)", "#!é\n@1", "(a (b #(@2 (@1))) . c)"][k]
     return shape.replace("@1", ident).replace("@2", other)
+
+
+# ----- programs of the fragment the AST model covers -----------------------------------------------------------
+PROG_IDS = ["x", "y", "z", "f", "g", "acc", "n", "lst", "k2", "+", "*", "-", "<", "=", "car", "cons", "list", "null?", "a-b", "é",
+            "set-x!", "->v"]
+
+
+def gen_quoted(r, depth):
+    k = r.randrange(10)
+    if depth <= 0 or k < 4:
+        return r.choice([str(r.randrange(-50, 50)), r.choice(PROG_IDS), "#t", "#f", '"s%d"' % r.randrange(9), "if", "define",
+                         "lambda", "quote-x", "#\\a", "1/2", "()"])
+    n = r.randrange(0, 4)
+    items = [gen_quoted(r, depth - 1) for _ in range(n)]
+    if k < 7:
+        return "(" + " ".join(items) + ")"
+    if k == 7:
+        return "#(" + " ".join(items) + ")"
+    if k == 8 and n >= 1:
+        return "(" + " ".join(items) + " . " + gen_quoted(r, depth - 1) + ")"
+    return "#u8(" + " ".join(str(r.randrange(256)) for _ in range(n)) + ")"
+
+
+def gen_prog_expr(r, depth, odd=False):
+    """one expression of the fragment: atoms, application, if, define, lambda, begin, set!, quote, let"""
+    k = r.randrange(20)
+    e = lambda: gen_prog_expr(r, depth - 1, odd)
+    if depth <= 0 or k < 5:
+        j = r.randrange(10)
+        if j < 3:
+            return str(gen_int(r))
+        if j < 6:
+            return r.choice(PROG_IDS)
+        if j == 6:
+            return r.choice(["#t", "#f", "#true", "#false"])
+        if j == 7:
+            return '"' + "".join(r.choice("abc xyz-é0") for _ in range(r.randrange(0, 5))) + '"'
+        if j == 8 and odd:
+            return r.choice(['"a\\"b"', '"a\\\\b"', '"a\\nb"', "|a b|", "|x\\x41;|", "#\\a", "#\\space", "1/2", "|'|"])
+        return r.choice(["#\\a", "#\\z", "1/2", "-3/4"]) if r.random() < 0.5 else str(r.randrange(100))
+    ids = lambda n: [r.choice(PROG_IDS[:9]) + str(i) for i in range(n)]
+    if k < 8:
+        return "(" + " ".join([r.choice(PROG_IDS) if r.random() < 0.7 else e()] + [e() for _ in range(r.randrange(0, 4))]) + ")"
+    if k == 8:
+        return "(if %s %s%s)" % (e(), e(), " " + e() if r.random() < 0.7 else "")
+    if k == 9:
+        return "(%s %s %s)" % (r.choice(["define", "define", "defn"]), r.choice(PROG_IDS[:9]), e())
+    if k == 10:
+        a = ids(r.randrange(0, 4))
+        return "(define (%s) %s)" % (" ".join([r.choice(PROG_IDS[:9])] + a), " ".join(e() for _ in range(r.randrange(1, 4))))
+    if k in (11, 12):
+        a = ids(r.randrange(0, 4))
+        return "(%s (%s) %s)" % (r.choice(["lambda", "lambda", "fn", "λ"]), " ".join(a), " ".join(e() for _ in range(r.randrange(1, 4))))
+    if k == 13:
+        return "(begin%s)" % "".join(" " + e() for _ in range(r.randrange(0, 4)))
+    if k == 14:
+        return "(set! %s %s)" % (r.choice(PROG_IDS[:9]), e())
+    if k in (15, 16):
+        q = gen_quoted(r, 3)
+        return "'" + q if r.random() < 0.5 else "(quote %s)" % q
+    if k == 17:
+        a = ids(r.randrange(0, 4))
+        return "(let (%s) %s)" % (" ".join("(%s %s)" % (x, e()) for x in a), " ".join(e() for _ in range(r.randrange(1, 3))))
+    if k == 18:
+        return "(lambda %s %s)" % (r.choice(PROG_IDS[:9]), e())          # one rest identifier
+    # malformed special forms and forms outside the model (the tie covers totality and the error / unmodelled split)
+    return r.choice(["(if)", "(if 1)", "(if 1 2 3 4)", "(set! x)", "(set! x 1 2)", "(define x)", "(lambda)", "(lambda (x))", "(quote)",
+                     "(quote 1 2)", "(let loop ((i 0)) i)", "(%plain-let ((x 1)) x)", "#(1 2)", "(f . x)", "(lambda (x . r) x)",
+                     "(define (f . r) r)", "(return! 1)", "(let ((x)) x)", "(let (x) x)", "(define ((f a) b) a)", "(begin . 1)"])
+
+
+def gen_program(r, odd=False):
+    return " ".join(gen_prog_expr(r, r.randrange(1, 5), odd) for _ in range(r.randrange(1, 4)))
 
 
 # ----- data for `print` (the writer that quotes symbols) -------------------------------------------------------
@@ -731,6 +805,7 @@ class Check:
         listed = {k.get("id"): k for k in ctx.load_known()}
         self.open = {kid: cls for kid, (cls, _) in PROPOSED.items() if kid in listed}
         self.n_viol = 0
+        self.noted = set()
 
     # ---- reporting -----------------------------------------------------------------------------
     def known(self, kid, detail):
@@ -1013,6 +1088,73 @@ class Check:
             if el and "\\" in bar_text(el) and any(len(e[0].encode()) > 1 and not e[0].startswith("\\") for e in el):
                 st["bar_multibyte_with_escape"] = st.get("bar_multibyte_with_escape", 0) + 1
 
+    # ---- programs: Parser::parse and the AST printer ------------------------------------------------
+    def check_programs(self, progs, label):
+        """tie: the ExprKind trees and their Display text, real vs the model of the lowering / printer (Ast.lean);
+        oracle on the real code alone: parse(pretty(ast)) = ast (`back=` is the dump of the re-parsed text)"""
+        st = self.stats
+        reqs = ["ast " + hx(t) for t in progs]
+        real = pool_run(self.real, reqs)
+        model = pool_run(self.model, reqs)
+        for t, rq, rl, ml in zip(progs, reqs, real, model):
+            st["programs"] = st.get("programs", 0) + 1
+            rl = rl or "CRASH no output"
+            ml = ml or "CRASH"
+            if rl.startswith(("panic", "CRASH")):
+                self.classify_text_failure(label, "ast", t, rl, {"read": ""}, "")
+                continue
+            bad = span_violations(t, rl) if rl.startswith("err") else []
+            if bad:
+                self.violation(label + "-span", [rq], "span %s outside the text" % bad[:3], "real: " + rl[:300])
+                continue
+            rm = re.match(r"ok (\d+) ast=(\S*) text=(\S*) back=(\S*)$", rl)
+            mm = re.match(r"ok (\d+) ast=(\S*) text=(\S*)$", ml)
+            # tie
+            if ml == "unmodelled" or ml.startswith("err unmodelled"):
+                st["programs_unmodelled"] = st.get("programs_unmodelled", 0) + 1
+            elif rm and mm:
+                if norm_model(mm.group(2)) == norm_zero(rm.group(2)) and mm.group(3) == rm.group(3) and mm.group(1) == rm.group(1):
+                    st["programs_model_agree"] = st.get("programs_model_agree", 0) + 1
+                    for tag in re.findall(r"(?:^|_)([IDFGQSLT])", rm.group(2)):
+                        st.setdefault("ast_nodes", {})[tag] = st.setdefault("ast_nodes", {}).get(tag, 0) + 1
+                else:
+                    self.model_disagreement(rq, rl, ml)
+            elif (rm is None) != (mm is None):
+                self.model_disagreement(rq, rl, ml)
+            else:
+                st["programs_both_reject"] = st.get("programs_both_reject", 0) + 1
+            # oracle
+            if not rm:
+                continue
+            st["parse_pretty_programs"] = st.get("parse_pretty_programs", 0) + 1
+            if rm.group(4) == "ok:%s:%s" % (rm.group(1), rm.group(2)):
+                st["parse_pretty_programs_same"] = st.get("parse_pretty_programs_same", 0) + 1
+                continue
+            printed = unhx(rm.group(3))
+            atoms = re.findall(r"a(id|str):([0-9a-f]*)", rm.group(2))
+            k12j = any((kind == "str" and (b'"' in bytes.fromhex(h) or b"\\" in bytes.fromhex(h) or b"\n" in bytes.fromhex(h))) or
+                       (kind == "id" and not symbol_is_plain(unhx(h)) and unhx(h) not in ("+", "-", "#%prim.void", "->v"))
+                       for kind, h in atoms)
+            if rm.group(4) == "panic":
+                if "K12e" in self.open and "K12j" in self.open and quote_context_class(printed) and k12j:
+                    self.known("K12e", "replay=%s reader panics on a printed program (identifier printed bare, K12j)" % PROPOSED["K12e"][1])
+                else:
+                    self.violation(label + "-total", ["parse " + rm.group(3)], "the reader panicked on the text the AST printer produced for %r" % t[:80])
+            elif k12j and "K12j" in self.open:
+                self.known("K12j", "replay=%s printed program does not parse back to the same tree" % PROPOSED["K12j"][1])
+            elif re.search(r"(^|_)F\d+r", rm.group(2)) or "aid:232323" in rm.group(2):
+                # rest arguments are printed like fixed ones / named let introduces the unreadable identifier ###0
+                st["parse_pretty_rest_or_named_let"] = st.get("parse_pretty_rest_or_named_let", 0) + 1
+                if "K12o" in self.open:
+                    self.known("K12o", "replay=%s the AST printer drops the rest-argument marker" % PROPOSED["K12o"][1])
+                else:
+                    # not listed (any more): a failing input of the property
+                    self.violation(label + "-parse-pretty", ["ast " + hx(t)],
+                                   "parse(pretty(ast)) is not ast: the AST printer drops the rest-argument marker / prints a fresh identifier: %r -> %r" % (t[:60], printed[:60]))
+            else:
+                self.violation(label + "-parse-pretty", [rq], "parse(pretty(ast)) differs from ast: %r is printed %r" % (t[:80], printed[:80]),
+                               "ast : %s\nback: %s" % (rm.group(2)[:300], rm.group(4)[:300]))
+
     # ---- print: the writer that quotes symbols -----------------------------------------------------
     def check_print(self, data, label):
         """(R) for `(print d)`: the text is `'d`, so `(read)` of it must give `(quote d)`"""
@@ -1261,6 +1403,14 @@ def run(ctx):
         ck.stats.get("bar_idents", 0), ck.stats.get("bar_same_as_string", 0), ck.stats.get("bar_multibyte_with_escape", 0),
         time.time() - t0))
 
+    # 2c. programs of the fragment of the AST model: Parser::parse + Display, real vs model; parse(pretty(ast)) = ast
+    progs = [gen_program(r) for _ in range(700 if quick else 60000)] + [gen_program(r, odd=True) for _ in range(150 if quick else 8000)]
+    ck.check_programs(progs, "prog")
+    ctx.log("programs: %d, trees and printed text agree with the model on %d (+%d unmodelled, %d rejected by both); parse(pretty(ast)) = ast on %d of %d [%.0fs]" % (
+        ck.stats.get("programs", 0), ck.stats.get("programs_model_agree", 0), ck.stats.get("programs_unmodelled", 0),
+        ck.stats.get("programs_both_reject", 0), ck.stats.get("parse_pretty_programs_same", 0), ck.stats.get("parse_pretty_programs", 0),
+        time.time() - t0))
+
     # 3. generated data
     n_data = int(os.environ.get("C12_DATA", 2000 if quick else 200000))
     maxd = 6 if quick else 40
@@ -1375,6 +1525,13 @@ def run(ctx):
         "data_where_model_predicts_real_exactly": st["data_model_agree"],
         "data_checked_on_real_code_only(inexact numbers)": st["data_real_only"],
         "max_datum_depth": st["max_depth"],
+        "programs": st.get("programs", 0),
+        "programs_where_model_predicts_trees_and_printed_text": st.get("programs_model_agree", 0),
+        "programs_unmodelled": st.get("programs_unmodelled", 0),
+        "programs_rejected_by_both": st.get("programs_both_reject", 0),
+        "ast_nodes_compared": st.get("ast_nodes", {}),
+        "parse_pretty_programs_checked_on_real_code": st.get("parse_pretty_programs", 0),
+        "parse_pretty_programs_same": st.get("parse_pretty_programs_same", 0),
         "bar_identifiers": st.get("bar_idents", 0),
         "bar_identifiers_same_characters_as_string_literal": st.get("bar_same_as_string", 0),
         "bar_identifiers_multibyte_before_or_after_escape": st.get("bar_multibyte_with_escape", 0),
